@@ -336,7 +336,11 @@ def specs(tier):
     for force in (False, True):
         for rn in ("none", "empty", "given"):
             out.append(FailSpec(force, rn))
-    return [*out, PStateInit(), ErrorContext(), ErrorContextSentinel()]
+    from . import c12, ops
+
+    # the position range rests on every terminal staying inside the input; the one terminal that advances by a length
+    # it does not read back from the match is ^"v": its contract and the regex assumptions behind it are re-proved here
+    return [*out, PStateInit(), ErrorContext(), ErrorContextSentinel(), ops.CIStringSpec(), c12.CIStrings()]
 
 
 def rendering_check() -> dict:
